@@ -23,7 +23,7 @@ PROP = {
              "price, one asset unknown to the oracle) followed by 1-3 slash calls through OperatorKeeper.Slash, OperatorKeeper."
              "SlashWithInfractionReason or dogfood SlashWithInfractionReason (by consensus address, known or unknown), with power aimed at "
              "value/20, value/3, value, value+1, 2*value+1, 1, random; factor from {0, 1e-18, 1/3, 5%, 1, 0.999.., random, 1.5, 1+1e-18, negative, nil}; "
-             "infraction height before/at/after the undelegations, in the current block, in the future; replayed identifiers (same and other "
+             "infraction height before/at/after the undelegations, in the current block, in the future; pending undelegations maturing between slashes through the real delegation EndBlock (one time in three); replayed identifiers (same and other "
              "entry point); directed scenarios first (same-block undelegation regression, zero-operator-value regression, replay through each entry point); "
              "distinct = distinct sha1 of the case; non-trivial = at least one call changed the dumped state"),
     "explanation": ("Theorems (Coq) about the executable model of CheckSlashParameter / SlashAssets / SlashFromUndelegation / Slash / "
@@ -38,7 +38,8 @@ PROP = {
         "x/delegation/keeper/un_delegation_state.go IterateUndelegationsByOperator, delegation_state.go SetStakerShareToZero/DeleteStakersListForOperator, "
         "x/assets/keeper/operator_asset.go IterateAssetsForOperator, x/dogfood/keeper/impl_sdk.go SlashWithInfractionReason "
         "(hand-written Gallina transcription, tied by differential execution)",
-        "oracle price lookup (GetSpecifiedAssetsPrice) and asset decimals are inputs of the model, read from the real keepers by the harness",
+        "oracle prices are inputs of the model and the monitor: resolved by the harness itself (asset id -> token by comma-split + equality over the stored oracle params, latest round "
+        "from the price store, default 1 when absent / non-positive), not through GetSpecifiedAssetsPrice; asset decimals from GetStakingAssetInfo",
         "identities (operator, asset, staker, AVS, record key) are mapped to integers by the harness; every field of an undelegation record other than "
         "ActualCompletedAmount is compared through a 48-bit fingerprint of its protobuf encoding",
         "not modelled: the 256-bit Int / 315-bit LegacyDec overflow panics (generated amounts stay below 2^120), int64 range of Power",
